@@ -168,7 +168,29 @@ func (e *ErrProv) valueOrigins(v ssa.Value, site ssa.Instruction, in *ssa.Functi
 	case *ssa.Call:
 		raw.addAll(e.callOrigins(x, in, depth, seen))
 	case *ssa.Parameter:
-		raw.add(ErrOrigin{Kind: "unknown", Name: "parameter " + x.Name() + " of " + FuncName(in), Pos: x.Pos(), Via: FuncName(in)})
+		// a helper that is only called statically: the union over what its callers pass
+		resolved := false
+		if sites := StaticCallSites(x.Parent()); len(sites) > 0 && depth < 12 {
+			idx := -1
+			for i, p := range x.Parent().Params {
+				if p == x {
+					idx = i
+				}
+			}
+			if idx >= 0 {
+				resolved = true
+				for _, cs := range sites {
+					if idx < len(cs.Common().Args) {
+						raw.addAll(e.valueOrigins(cs.Common().Args[idx], cs, cs.Parent(), depth+1, seen))
+					} else {
+						resolved = false
+					}
+				}
+			}
+		}
+		if !resolved {
+			raw.add(ErrOrigin{Kind: "unknown", Name: "parameter " + x.Name() + " of " + FuncName(in), Pos: x.Pos(), Via: FuncName(in)})
+		}
 	case *ssa.TypeAssert:
 		raw.addAll(e.valueOrigins(x.X, site, in, depth+1, seen))
 	default:
